@@ -125,6 +125,25 @@ func fillGPUTotalMem(allocations apiext.DeviceAllocations, nodeDeviceInfo *nodeD
 	return nil
 }
 
+// completeGPURequest returns the per-GPU request with the other view of the memory amount filled in for the
+// given device (bytes for a ratio request, ratio for a bytes request), i.e. exactly what fillGPUTotalMem will
+// charge to the device when the allocation is committed, so that both views are compared with the free amounts.
+func completeGPURequest(requests, deviceTotal corev1.ResourceList) corev1.ResourceList {
+	gpuMem, gpuMemExists := requests[apiext.ResourceGPUMemory]
+	gpuMemRatio, gpuMemRatioExists := requests[apiext.ResourceGPUMemoryRatio]
+	totalMem, ok := deviceTotal[apiext.ResourceGPUMemory]
+	if !ok || totalMem.IsZero() || gpuMemExists == gpuMemRatioExists {
+		return requests
+	}
+	completed := requests.DeepCopy()
+	if gpuMemExists {
+		completed[apiext.ResourceGPUMemoryRatio] = memoryBytesToRatio(gpuMem, totalMem)
+	} else {
+		completed[apiext.ResourceGPUMemory] = memoryRatioToBytes(gpuMemRatio, totalMem)
+	}
+	return completed
+}
+
 func memoryRatioToBytes(ratio, totalMemory resource.Quantity) resource.Quantity {
 	return *resource.NewQuantity(ratio.Value()*totalMemory.Value()/100, resource.BinarySI)
 }
